@@ -212,6 +212,32 @@ class Ctx:
             return False
         return True
 
+    def correspond_model(self, stream, lines, impl_outs, translate, classes=None):
+        """Like correspond, but the model's output line is first translated by the harness
+        (e.g. slices -> checksums of the bytes they denote) before it is compared."""
+        st = self.streams.setdefault(stream, {"cases": 0, "disagreements": 0, "classes": {}})
+        if not lines:
+            return True
+        model = self.run_driver(lines)
+        st["cases"] += len(lines)
+        bad = None
+        for i, (ln, a, m) in enumerate(zip(lines, impl_outs, model)):
+            b = translate(i, m)
+            if classes is not None:
+                st["classes"][classes[i]] = st["classes"].get(classes[i], 0) + 1
+            if a != b:
+                st["disagreements"] += 1
+                if bad is None or len(ln) < len(bad[0]):
+                    bad = (ln, a, b, m)
+        if "sample" not in st:
+            k = self.rng.randrange(len(lines))
+            st["sample"] = {"op": lines[k][:300], "impl": impl_outs[k][:300], "model": model[k][:300]}
+        if bad:
+            self.broken.append({"kind": "correspondence", "name": stream,
+                                "detail": {"op": bad[0][:2000], "impl": bad[1][:2000], "model_translated": bad[2][:2000], "model_raw": bad[3][:2000]}})
+            return False
+        return True
+
     # ------------------------------------------------------------ explore
     def case(self, key=None, nontrivial=False, sample=None):
         self.evaluations += 1
